@@ -205,13 +205,15 @@ impl<CS: CipherSuite, S: SecretKey<CS::KeGroup>> ServerSetup<CS, S> {
     /// Deserialization from bytes
     pub fn deserialize(input: &[u8]) -> Result<Self, ProtocolError<S::Error>> {
         let seed_len = OutputSize::<OprfHash<CS>>::USIZE;
+        // the static key is serialized by `S`, with `S::Len` bytes (see `serialize()`)
+        let sk_len = S::Len::USIZE;
         let key_len = <CS::KeGroup as KeGroup>::SkLen::USIZE;
-        let checked_slice = check_slice_size(input, seed_len + key_len + key_len, "server_setup")?;
+        let checked_slice = check_slice_size(input, seed_len + sk_len + key_len, "server_setup")?;
 
         Ok(Self {
             oprf_seed: GenericArray::clone_from_slice(&checked_slice[..seed_len]),
-            keypair: KeyPair::from_private_key_slice(&checked_slice[seed_len..seed_len + key_len])?,
-            fake_keypair: KeyPair::from_private_key_slice(&checked_slice[seed_len + key_len..])
+            keypair: KeyPair::from_private_key_slice(&checked_slice[seed_len..seed_len + sk_len])?,
+            fake_keypair: KeyPair::from_private_key_slice(&checked_slice[seed_len + sk_len..])
                 .map_err(ProtocolError::into_custom)?,
         })
     }
